@@ -24,7 +24,13 @@ Tie:
      depends on a bound of a SIZE range; a short valid input must decode;
      faithfulness: the extracted allocation-metered decoders of coq/Rt/HeapBound.v
      (c15_str / c15_lst, policy PerFragment) predict peak, largest request and number of
-     allocations of the C for every UPER string / list input."""
+     allocations of the C for every UPER string / list input;
+ (N) the nested-collection sweep (lib/c15_nested.py): lists of lists (depth 1..4, through SEQUENCE members and
+     CHOICE alternatives) of zero-width and near-zero-width elements x OER, UPER, BER, XER x inner counts as
+     large as the rest of the input allows x n, 4n, 16n; oracle: peak / largest request / allocation count
+     <= c*n + K, peak/n and allocs/n must not grow from n to 4n, conforming encodings decode;
+     faithfulness: the extracted OER list-of-lists decoder of coq/Rt/HeapOer.v (c15_oll, guard PerElement)
+     predicts outcome, consumed octets, peak, largest request and allocation count exactly."""
 import sys, os, json
 from concurrent.futures import ThreadPoolExecutor
 sys.path.insert(0, os.path.join(os.path.dirname(os.path.abspath(__file__)), "..", "lib"))
@@ -75,6 +81,7 @@ MIN_FRAME = 16                      # x86-64: return address + saved frame point
 # (theorem guarded_stack_bound: (R+1) * biggest frame) plus the allocator wrapper; measured
 # maxima on this image: 1.3 KiB (plain), 5.9 KiB (ASan)
 STK_SLACK = 16384
+HAVE_OLL = os.path.exists(os.path.join(COQ, "Rt", "HeapOer.v"))
 H = 4096                            # fixed per-decode structures (top-level struct, contexts, small buffers)
 P = 24                              # pointer-array bytes per list element at worst: slot x2 capacity slack + old array during realloc
 ZW = 201 * (64 + P) + H             # zero-width elements: at most 201 of them (the `> 200` guards), element struct <= 64
@@ -387,6 +394,153 @@ def sweep(run, rng, tier, model, inp):
     return stats
 
 
+# ---------------------------------------------------------------- (N) the nested-collection sweep
+def nested(run, rng, tier, model, inp):
+    """lists of lists (depth 1..4, also through SEQUENCE members and CHOICE alternatives) of zero-width and
+    near-zero-width elements, inner counts as large as the REST of the input allows; three oracles on the C
+    alone: peak / largest request / allocation count against c*n + K, growth of peak/n and allocs/n from n to
+    4n, a conforming encoding must decode; faithfulness: the extracted OER list-of-lists decoder of
+    coq/Rt/HeapOer.v (guard PerElement) predicts outcome, peak, largest request and allocation count."""
+    import c15_nested as NS
+    ts, text = NS.make_types(tier)
+    m = mk(text)
+    build_modules([m], tag="c15n", san=True, extra_ldflags=WRAP, moddrv_extra=INC)
+    if not m.get("exe"):
+        run.violation("build:module", {"what": "asn1c rejected the nested-collection module or its code does not compile", "module": text[:3000],
+                                       "asn1c_out": m.get("asn1c_out", "")[-1500:], "build_log": m.get("build_log", "")[-1500:]}, no_input=True)
+        return {}
+    cases = NS.cases(ts, rng, tier)
+    jobs = []
+    for i, (t, syn, fam, n0, data, exp) in enumerate(cases):
+        c, K, ca, Ka = NS.bound(t, syn)
+        if len(data) > 1024:
+            path = os.path.join(inp, "nl_%d.bin" % i)
+            open(path, "wb").write(data)
+            arg = "@" + path
+        else:
+            arg = data.hex() or "-"
+        # the refusing allocator stops a decode a little above twice the bound: a quadratic decoder costs a few MiB, not 256
+        cap = 2 * (c * len(data) + K) + (1 << 20)
+        jobs.append({"i": i, "arg": arg, "line": "dmeterc %s %s %s -1 %d" % (t.name, syn, arg, cap)})
+    CH = 48
+    chunks = [jobs[k:k + CH] for k in range(0, len(jobs), CH)]
+
+    def go(js):
+        rc, out, err = run_lines(m["exe"], [j["line"] for j in js], timeout=300, env=SAN_ENV)
+        if rc == 0 and len(out) == len(js):
+            for j, o in zip(js, out):
+                j["out"], j["crash"] = o, None
+        else:
+            for j in js:
+                r = U.run_child(m["exe"], j["line"], 8192, timeout=120, env=SAN_ENV)
+                j["out"], j["crash"], j["err"] = r["out"], (r["why"] if r["crash"] else None), r["err"]
+        return js
+    with ThreadPoolExecutor(NCPU) as ex:
+        list(ex.map(go, chunks))
+    # ---- the model's prediction: plain chains of NULL / BOOLEAN in OER
+    mlines, mjobs = [], {}
+    for j in jobs:
+        t, syn, fam, n0, data, exp = cases[j["i"]]
+        ms = t.model_str()
+        if HAVE_OLL and syn == "oer" and ms and len(data) <= 4000:
+            mlines.append("c15_oll G %s %s" % (ms, j["arg"]))
+            mjobs[j["i"]] = len(mlines) - 1
+    mout = []
+    if mlines:
+        MCH = max(1, len(mlines) // NCPU + 1)
+        parts = [mlines[k:k + MCH] for k in range(0, len(mlines), MCH)]
+        with ThreadPoolExecutor(NCPU) as ex:
+            res = list(ex.map(lambda ls: run_lines(model, ls, timeout=600), parts))
+        for (rcm, o, e), ls in zip(res, parts):
+            if rcm != 0 or len(o) != len(ls):
+                raise RuntimeError("model driver failed on the nested sweep: " + e[-500:])
+            mout += o
+    viol = []
+    emit = lambda kind, replay: viol.append((0 if kind.startswith("oracle:heap") else 1 if kind.startswith("oracle") else 2, len(viol), kind, replay))
+    stats = {"types": len(ts), "cases": len(cases), "model_compared": 0, "valid_ok": 0, "refused_requests": 0, "growth_pairs": 0}
+    tight, series = [], {}
+    for j in jobs:
+        t, syn, fam, n0, data, exp = cases[j["i"]]
+        n = len(data)
+        desc = "nested %s %s %s n=%d" % (t.name, syn, fam, n)
+        run.case(desc)
+        run.count("nested_%s" % syn)
+        run.count("nested_fam_%s" % fam)
+        run.count("nested_depth_%d" % t.depth)
+        run.count("nested_kind_%s" % t.kind)
+        replay = {"module_lines": [l for l in text.split("\n") if l.split(" ::=")[0] in (t.name, "L1" + t.kind)] + ["(module C15N, lib/c15_nested.make_types)"], "type": t.name, "syntax": syn,
+                  "command_line": j["line"], "input_bytes": n, "input_head": data[:48].hex(), "family": fam, "depth": t.depth, "element": NS.KINDS[t.kind][0], "seed": run.seed,
+                  "how_to_regenerate": "lib/c15_nested.py: cases(make_types(tier)[0], Rng(seed), tier); module C15N"}
+        if j["crash"]:
+            emit("oracle:heap(%s,%s)" % (t.name, syn), dict(replay, what="decoder process died: %s" % j["crash"], stderr_tail=j.get("err", "")[-1500:], c=j["out"]))
+            continue
+        o = U.parse_dmeter(j["out"])
+        if o is None:
+            emit("oracle:driver", dict(replay, what="unexpected driver output", c=j["out"]))
+            continue
+        run.count("rc_" + o["rc"])
+        stats["refused_requests"] += o.get("refused", 0)
+        c, K, ca, Ka = NS.bound(t, syn)
+        worst = max(o["peak"], o["maxreq"])
+        tight.append((round(worst / float(c * n + K), 3), desc, "peak=%d allocs=%d n=%d bound=%d*n+%d / %d*n+%d" % (o["peak"], o["allocs"], n, c, K, ca, Ka)))
+        if fam in NS.GROWTH_FAMS:
+            series.setdefault((t.name, syn, fam), []).append((n, o, j, replay))
+        if worst > c * n + K or o["allocs"] > ca * n + Ka:
+            what = ("peak live heap %d bytes" % o["peak"]) if o["peak"] > c * n + K else ("largest single request %d bytes" % o["maxreq"]) if worst > c * n + K else "%d allocations" % o["allocs"]
+            emit("oracle:heap(%s,%s)" % (t.name, syn),
+                 dict(replay, what="%s for %d input bytes exceeds %s (nested collection, depth %d, inner counts of family `%s`)"
+                      % (what, n, ("%d*n + %d" % (c, K)) if worst > c * n + K else ("%d*n + %d allocations" % (ca, Ka)), t.depth, fam), c=j["out"], bound={"c": c, "K": K, "ca": ca, "Ka": Ka}, refused=o.get("refused", 0)))
+            continue
+        if o["left"] != 0:
+            emit("oracle:heap-left(%s,%s)" % (t.name, syn), dict(replay, what="%d bytes still live after ASN_STRUCT_FREE" % o["left"], c=j["out"]))
+        if exp == "valid":
+            if o["rc"] != "OK" or o["consumed"] != n:
+                emit("oracle:valid-refused(%s,%s)" % (t.name, syn), dict(replay, what="a conforming encoding (family `%s`) is answered %s consumed=%d of %d" % (fam, o["rc"], o["consumed"], n), c=j["out"]))
+            else:
+                stats["valid_ok"] += 1
+        if j["i"] in mjobs:
+            ml = mout[mjobs[j["i"]]]
+            f = ml.split()
+            md = dict(kv.split("=") for kv in f[2:])
+            bad = []
+            if f[0] != o["rc"]:
+                bad.append("outcome: model %s, C %s" % (f[0], o["rc"]))
+            elif f[0] == "OK" and int(f[1]) != o["consumed"]:
+                bad.append("consumed: model %s, C %d" % (f[1], o["consumed"]))
+            for key in ("peak", "maxreq", "allocs"):
+                if int(md[key]) != o[key]:
+                    bad.append("%s: model %s, C %d" % (key, md[key], o[key]))
+            stats["model_compared"] += 1
+            if bad:
+                emit("correspondence:HeapOer.oll_dec(%s)" % t.name, dict(replay, what="the allocation-metered OER list-of-lists model (guard PerElement) and the C disagree: " + "; ".join(bad),
+                                                                            model=ml, c=j["out"], model_command=mlines[mjobs[j["i"]]][:300]))
+        if len(run.cov["samples"]) < 18 and rng.chance(1, 150):
+            run.sample({"type": t.name, "syntax": syn, "family": fam, "n": n, "c_output": j["out"], "bound": "%d*n+%d" % (c, K)})
+    # ---- growth: peak/n and allocs/n must not grow with n (n -> 4n); a linear decoder has a falling or flat ratio
+    for (tn, syn, fam), pts in sorted(series.items()):
+        pts.sort(key=lambda p: p[0])
+        for (n1, o1, j1, _), (n2, o2, j2, rp2) in zip(pts, pts[1:]):
+            if n2 < 2 * n1:
+                continue
+            stats["growth_pairs"] += 1
+            run.case("nested growth %s %s %s %d->%d" % (tn, syn, fam, n1, n2))
+            for key, floor, add in (("peak", 8192, 32.0), ("allocs", 512, 1.0)):
+                r1, r2 = o1[key] / float(n1), o2[key] / float(n2)
+                if o2[key] > floor and r2 > 1.5 * r1 + add:
+                    emit("oracle:heap-growth(%s,%s)" % (tn, syn),
+                         dict(rp2, what="%s per input octet grows with the input: %.1f at n=%d, %.1f at n=%d (family `%s`): super-linear heap" % (key, r1, n1, r2, n2, fam),
+                              c=j2["out"], c_smaller=j1["out"], smaller_command_line=j1["line"]))
+                    break
+    nth, ranked = {}, []
+    for pr, idx, kind, replay in viol:
+        nth[kind] = nth.get(kind, 0) + 1
+        ranked.append((nth[kind] - 1, pr, idx, kind, replay))
+    for _, _, _, kind, replay in sorted(ranked, key=lambda v: v[:3]):
+        run.violation(kind, replay)
+    stats["tightest"] = sorted(tight, reverse=True)[:12]
+    return stats
+
+
 def main(tier):
     run = Run("C15", tier)
     rng = Rng(run.seed)
@@ -572,6 +726,7 @@ def main(tier):
             run.sample({"type": tn, "syntax": syn, "input": j["label"], "n": j["n"], "c_output": r["out"], "bound": "%d*n+%d" % (c, K)})
     # ------------------------------------------------------------ (S) declared-size sweep
     sweep_stats = sweep(run, rng, tier, model, inp)
+    nested_stats = nested(run, rng, tier, model, inp)
     # faithfulness, the other direction: where the model sees an unguarded cycle the C must die at depth 10^5
     for (syn, tn), g in sorted(verdict.items()):
         if not g and deep_crash.get((syn, tn)) is False:
@@ -582,19 +737,20 @@ def main(tier):
     tb = ["Coq 8.16.1 kernel; vm_compute for the heap refuted witnesses and Examples", "axioms under Print Assumptions: " + (", ".join(sorted(axioms)) or "none (Closed under the global context)"),
           "extraction: ExtrOcamlBasic only; OCaml 4.13.1", "harness/c15_guards.json (reviewed guard table) and lib/c15_util.scan_guards (regex scanner of the skeleton sources: function body, `if(ASN__STACK_OVERFLOW_CHECK(` followed by a failure, ber_check_tags call)",
           "lib/c15_util.py: type graphs of the hand-written modules (NODES/EDGES), input generators; harness/moddrv_c15.inc (meter: --wrap malloc family, malloc_usable_size; stack extent sampled at allocations)",
+          "lib/c15_nested.py (type table of module C15N, right-to-left encoders, the per-type constants of `bound`), the 48-byte list head and one block per NULL / BOOLEAN of the OER model tie; dmeterc's per-command heap cap",
           "lib/c15_sweep.py (type table of module C15D, per-syntax input builders), the LP64 struct sizes of checks/c15.py STRUCT (OCTET_STRING_t 40, BIT_STRING_t 48, list head 48) and the 8-byte pointer of set_add; dmeterb's refusing allocator (32 MiB per request)",
           "gcc -O1 with and without ASan/UBSan, LP64, setrlimit(RLIMIT_STACK) in child processes; frame sizes and stack exhaustion are observed, not proved"]
     return run.finish("proof", (nthm, ndis), trusted_base=tb,
                       checker_cmd="make -C /verif all && coqc -Q coq A1 coq/Props/Properties_C15.v",
                       extra_cov={"theorems": names, "modules": 3, "child_processes": len(jobs), "depths": depths, "caller_max_stack": caller,
-                                 "coqchk": coqchk, "sweep": sweep_stats, "max_stack_extent_above_limit": max_stk, "heap_bound_tightest": sorted(tight, reverse=True)[:12],
+                                 "coqchk": coqchk, "sweep": sweep_stats, "nested": nested_stats, "max_stack_extent_above_limit": max_stk, "heap_bound_tightest": sorted(tight, reverse=True)[:12],
                                  "constants": {"NEST_C": NEST_C, "H": H, "P": P, "ZW": ZW, "STK_SLACK": STK_SLACK, "MIN_FRAME": MIN_FRAME},
                                  "rule": "one case = one child process (type, syntax, input, build, RLIMIT_STACK, max_stack_size) or one guard-table / model line",
                                  "traces_validated_against_impl": run.cov["evaluations"]},
                       assumptions=["PARTIAL: the theorems are about a call-graph model and the reference decoders; frame sizes, stack exhaustion and the allocator are observed at run time on this build only",
                                    "recursive types covered: the hand-written shapes of modules C15A/B/C (SEQUENCE, SEQUENCE OF, SET OF, CHOICE, EXPLICIT tag, CHOICE through SEQUENCE, extension addition, constructed strings, ANY, skipped extensions); SET, open types of information object sets and APER are not exercised",
                                    "heap constants are per type class (notes/design/C15.md) and hold for requested sizes as reported by ASan's malloc_usable_size",
-                                   "the allocation-metered model (coq/Rt/HeapBound.v) covers the UPER decoders of strings and SEQUENCE OF / SET OF; OER, BER, XER, members, open types and length-prefixed primitives are held to the oracle only; restricted alphabets on random tails and zero-bit values are not compared with the model"])
+                                   "the allocation-metered models cover the UPER decoders of strings and SEQUENCE OF / SET OF (coq/Rt/HeapBound.v) and the OER decoder of nested lists over NULL / BOOLEAN (coq/Rt/HeapOer.v); BER, XER, members, alternatives, open types, SEQUENCE {} / string elements of nested lists and length-prefixed primitives are held to the oracle only; the growth oracle compares inputs up to 3072 (thorough 6144) octets; restricted alphabets on random tails and zero-bit values are not compared with the model"])
 
 
 if __name__ == "__main__":
